@@ -9,8 +9,9 @@ EXTENDS Daemon
 NewTrace == starts' <= starts /\ proc' = "run" /\ proc # "run"
 
 \* ---- C03: stopping regulation hands the fan back or leaves it at full speed ----
-\* Excluded as vacuous: a driver that refuses the final full-speed write as well (then no
-\* implementation can comply); Restore3 is therefore explored with outcome "ok" only.
+\* Excluded as vacuous: a driver that refuses the hand-back by mode AND the final full-speed write (then no
+\* implementation can comply); in the model Restore3 is explored with outcome "ok" only, the drivers also refuse the
+\* full-speed write where the mode write is accepted (a compliant implementation never gets that far).
 Restored(f) ==
   \/ cf.hasMode[f] /\ orig[f].mode # Manual /\ mode[f] = orig[f].mode
   \/ pwm[f] = Full
